@@ -150,9 +150,54 @@ def scaled_spd_case(draw, mode):
             'probe': draw(st.lists(st.integers(0, 1000), min_size=8, max_size=8))}
 
 
+@st.composite
+def big_spd_case(draw, mode):
+    """A well-conditioned dense SPD operator with a few hundred unknowns (beyond any size threshold of a dense fast path):
+    the dense form of the lazy inverse and one solve. Values derive from the seed."""
+    return {'form': 'big_spd', 'n': draw(st.sampled_from([257, 300, 320])), 'seed': draw(st.integers(0, 10 ** 6)),
+            'dtype': draw(st.sampled_from(gen.dtypes(mode)))}
+
+
 def strategy(tier, mode):
-    return st.one_of(closed_case(mode), closed_case(mode), spd_case(mode), spd_case(mode), nonsquare_case(mode),
+    big = big_spd_case(mode)
+    rest = st.one_of(closed_case(mode), closed_case(mode), spd_case(mode), spd_case(mode), nonsquare_case(mode),
                      scaled_spd_case(mode))
+    return st.integers(0, 24).flatmap(lambda i: big if i == 0 else rest)
+
+
+def _check_big_spd(r, mode):
+    import jax
+    import jax.numpy as jnp
+    import lineax as lx
+
+    from furax import Config
+    from furax._base.dense import DenseBlockDiagonalOperator
+
+    n, dt = r['n'], r['dtype']
+    rng = np.random.default_rng(r['seed'])
+    B = rng.normal(size=(n, n)) / math.sqrt(n)
+    A = np.asarray(np.asarray(B.T @ B + np.eye(n), dtype=dt), dtype=np.float64)
+    A = (A + A.T) / 2
+    eps = float(np.finfo(np.dtype(dt)).eps)
+    op = DenseBlockDiagonalOperator(jnp.asarray(A, dtype=dt), jax.ShapeDtypeStruct((n,), jnp.dtype(dt)), 'ij,j->i')
+    rtol = 1e-5 if dt == 'float32' else 1e-9
+    with Config(solver=lx.CG(rtol=rtol, atol=rtol, max_steps=400), solver_callback=ops._quiet_cb):
+        inv = must_not_raise('inverse', lambda: op.I)
+    Minv = np.linalg.inv(A)
+    kappa = float(np.linalg.cond(A))
+    Mi = np.asarray(must_not_raise('I-as_matrix', inv.as_matrix), dtype=np.float64)
+    tolm = 50 * eps * kappa * n * np.abs(Minv).max() + 1e-30
+    if Mi.shape != Minv.shape or np.abs(Mi - Minv).max() > tolm:
+        raise Violation('I-as_matrix', f'as_matrix() of the inverse of a {n}x{n} SPD operator differs from the matrix inverse by '
+                                       f'{np.abs(Mi - Minv).max():.3g} (tol {tolm:.3g}, kappa {kappa:.3g})')
+    y = rng.integers(-3, 4, n).astype(np.float64)
+    z = np.asarray(must_not_raise('I-mv', inv.mv, jnp.asarray(y, dtype=dt)), dtype=np.float64)
+    ny = float(np.linalg.norm(y))
+    res = float(np.linalg.norm(A @ z - y))
+    bound = 10 * (rtol + rtol * ny) + 200 * eps * kappa * ny * math.sqrt(n)
+    if not np.all(np.isfinite(z)) or res > bound:
+        raise Violation('cg-residual', f'||A z - y|| = {res:.3g} > {bound:.3g} for a {n}x{n} SPD operator (kappa {kappa:.3g})')
+    return {'nontrivial': True, 'classes': ['big_spd', f'n:{n}']}
 
 
 def _contains_move(r, defs):
@@ -164,6 +209,8 @@ def check(recipe, mode):
 
     from furax import Config
 
+    if recipe['form'] == 'big_spd':
+        return _check_big_spd(recipe, mode)
     defs = recipe.get('defs', [])
     case = {'defs': defs, 'expr': recipe['expr']}
     den = ops.denote_case(case)
